@@ -104,6 +104,19 @@ FIRST_MISSED = {
     "C18l": "missed first: the re-timing helper was simply not called; `MeatGiven` judges the series the feed round is really given",
     "C18m": "missed first: the threshold of `FillSum` was read back from the constants; it is now the configured one, ARG `nw_T50` added",
     "C18n": "missed first: no bump input where the crops left lie between one request and both",
+    # wave 8
+    "C02p": "missed first: the stock regime was read back from the code, and no quick run used the fourth regime; `StockRegimeAsConfigured` and USA `nw_baseline_nostore`",
+    "C05p": "missed first: no country with dairy herds but no national milk figure; CYP added",
+    "C08o": "an option-level slip (the sugar loss takes the crops column): caught by C13 `WritesAsDocumented` on the distribution losses, documented after wave 6",
+    "C08p": "an option-level slip (yield gains clipped away): caught by C13 `WritesAsDocumented` (`row1p:` on the AUS row)",
+    "C10p": "closed after reading the summary: a conversion repeated after the quantity (and the first result) changed",
+    "C11o": "closed after reading the summary: series that are one month long",
+    "C11p": "a history of requirement changes on the shared converter: caught by C10 once two settings differed in the fat and protein needs only",
+    "C12o": "a slip in the feed total of the LP: caught by C01 `FeedEqualsCharge` and C02; C12's own pairs do not reach it (it needs sugar in surplus and both charges from month 7 on)",
+    "C13p": "closed after reading the summary: near misses of the known-to-fail table must keep the requested shut-off",
+    "C14o": "missed first: New Zealand, the one country the final round treats specially, was in no run type; it replaces the USA",
+    "C15o": "missed first: the harness handed every call a fresh copy of the list; the caller's list is now compared afterwards",
+    "C18p": "missed first: no run without initial stock; ARG `nw_no_stored_food` added",
     "C18c": "caught from wave 1; a later encoding change turned its `inf` into a machinery failure for a while: a non-finite observation is now a violation",
 }
 
